@@ -1279,6 +1279,10 @@ func newMemRemote() *memRemote {
 
 func (m *memRemote) TypeName() string { return "mem" }
 
+// objKey: object keys are normalised like S3Cache/GCSCache.buildPath does (slashes around the key are trimmed), so that the
+// in-memory backend and the real S3Cache over the fake client address the same objects
+func objKey(ns, key string) string { return ns + "/" + strings.Trim(key, "/") }
+
 func (m *memRemote) fault(op, ns, key string) string {
 	for i, f := range m.faults {
 		if f.Op == op && (f.NS == "" || f.NS == ns) && (f.Key == "" || f.Key == key) {
@@ -1295,7 +1299,7 @@ func (m *memRemote) Get(ctx context.Context, path, key string) (io.ReadCloser, e
 	m.mu.Lock()
 	defer m.mu.Unlock()
 	f := m.fault("get", path, key)
-	b, ok := m.data[path+"/"+key]
+	b, ok := m.data[objKey(path, key)]
 	m.ops = append(m.ops, map[string]any{"op": "get", "ns": path, "k": key, "fault": f, "present": ok})
 	if f == "err" || f == "err-after" {
 		return nil, errInjected
@@ -1331,7 +1335,7 @@ func (m *memRemote) Set(ctx context.Context, path, key string, content io.Reader
 		return errInjected // everything was read, nothing stored (e.g. the final PUT failed)
 	}
 	m.mu.Lock()
-	m.data[path+"/"+key] = b
+	m.data[objKey(path, key)] = b
 	m.mu.Unlock()
 	if f == "err-after" {
 		return errInjected
@@ -1342,7 +1346,15 @@ func (m *memRemote) Set(ctx context.Context, path, key string, content io.Reader
 func (m *memRemote) Delete(ctx context.Context, path, key string) error {
 	m.mu.Lock()
 	defer m.mu.Unlock()
-	delete(m.data, path+"/"+key)
+	f := m.fault("delete", path, key)
+	m.ops = append(m.ops, map[string]any{"op": "delete", "ns": path, "k": key, "fault": f})
+	if f == "err" {
+		return errInjected // nothing deleted
+	}
+	delete(m.data, objKey(path, key))
+	if f != "" {
+		return errInjected // deleted, but an error is reported
+	}
 	return nil
 }
 
@@ -1350,7 +1362,7 @@ func (m *memRemote) Exists(ctx context.Context, path, key string) (bool, error) 
 	m.mu.Lock()
 	defer m.mu.Unlock()
 	f := m.fault("exists", path, key)
-	_, ok := m.data[path+"/"+key]
+	_, ok := m.data[objKey(path, key)]
 	m.ops = append(m.ops, map[string]any{"op": "exists", "ns": path, "k": key, "fault": f, "present": ok})
 	if f != "" {
 		return false, errInjected
@@ -1361,7 +1373,7 @@ func (m *memRemote) Exists(ctx context.Context, path, key string) (bool, error) 
 func (m *memRemote) has(ns, key string) bool {
 	m.mu.Lock()
 	defer m.mu.Unlock()
-	_, ok := m.data[ns+"/"+key]
+	_, ok := m.data[objKey(ns, key)]
 	return ok
 }
 
@@ -1596,7 +1608,17 @@ func (c *callRec) Set(ctx context.Context, path, key string, content io.Reader) 
 	return err
 }
 
-func (c *callRec) Delete(ctx context.Context, path, key string) error { return c.inner.Delete(ctx, path, key) }
+func (c *callRec) Delete(ctx context.Context, path, key string) error {
+	c.log.inflight.Add(1)
+	defer c.log.inflight.Add(-1)
+	kl := c.log.lockFor(path, key)
+	kl.Lock()
+	defer kl.Unlock()
+	err := c.inner.Delete(ctx, path, key)
+	l, r := c.tiers(path, key)
+	c.log.add(map[string]any{"e": "delete", "p": c.pid, "m": c.mach, "ns": path, "k": key, "ok": err == nil, "l": l, "rem": r})
+	return err
+}
 
 // setRecorder remembers what was stored under each key (for the content check of later Gets).
 type setRecorder struct {
@@ -1847,6 +1869,22 @@ func init() {
 					if hung {
 						r["outcome"] = "hang"
 					}
+				case "taint", "untaint", "tainted":
+					// the taint cache is built over the same (two-tier) backend as in cmds/build.go and cmds/taint.go
+					tcache := caching.NewTaintCache(backend)
+					lbl := t.target().Label
+					var terr error
+					switch op.kind {
+					case "taint":
+						terr = tcache.Taint(env.ctx, lbl)
+					case "untaint":
+						terr = tcache.Clear(env.ctx, lbl)
+					default:
+						var yes bool
+						yes, terr = tcache.IsTainted(env.ctx, lbl)
+						r["tainted"] = yes
+					}
+					r["outcome"] = errClass(terr)
 				case "rawset":
 					// the source stream of a blob breaks in the middle: every file output of the target is streamed into the
 					// backend through a reader that fails after half of its bytes (and after 40000 bytes for large ones)
